@@ -323,6 +323,12 @@ REJECT = [
     ("negative-length", dict(start_size=0.1, end_size=0.2), -1.0),
     ("zero-c2c", dict(start_size=0.1, c2c_expansion=0.0), 1.0),
     ("zero-total", dict(start_size=0.1, total_expansion=0.0), 1.0),
+    # cells shrinking by a tenth from 0.1 on never add up to more than 0.1 / (1 - 0.9) = 1: no count fills a longer edge
+    ("beyond-series-limit-1.2", dict(start_size=0.1, c2c_expansion=0.9), 1.2),
+    ("beyond-series-limit-1.5", dict(start_size=0.1, c2c_expansion=0.9), 1.5),
+    ("beyond-series-limit-1.9", dict(start_size=0.1, c2c_expansion=0.9), 1.9),
+    ("beyond-series-limit-5", dict(start_size=0.1, c2c_expansion=0.9), 5.0),
+    ("beyond-series-limit-small", dict(start_size=0.002, c2c_expansion=0.8), 0.013),
 ]
 
 
